@@ -171,7 +171,7 @@ UNIT = dict(
     dict(id='marks', entry='h_marks', cls='unbounded', note='make_marked / make_clean_marked on arbitrary words'),
     dict(id='stamps', entry='h_stamps', cls='unbounded', note='head_stamp() / tail_stamp(): one load each, nothing written'),
     dict(id='sync', entry='h_sync', cls='unbounded', note='the memory orders written at the 32 annotated synchronisation points (extracted from the text) are at least what the comments require'),
-    dict(id='mark', entry='h_mark', unwindset=UW_SEQ, cls='unbounded', note='set_mark_flag / mark_next on an arbitrary cell of an arbitrary pool; SEQ: the retry loops end in their first iteration'),
+    dict(id='mark', entry='h_mark', unwindset=UW_SEQ, defs={'XV_OBS': 1}, cls='unbounded', note='set_mark_flag / mark_next on an arbitrary cell of an arbitrary pool; SEQ: the retry loops end in their first iteration'),
     dict(id='ctor', entry='h_ctor', cls='unbounded'),
     dict(id='push', entry='h_push', unwindset=UW_SEQ, cls='shape-complete', unwind_obligation='stampq.push.terminates',
          note='SEQ, any quiescent queue of 0..3 blocks (arbitrary stamps/tags), arbitrary leftovers in the pushed block; loops unwound completely'),
@@ -179,8 +179,8 @@ UNIT = dict(
          note='SEQ, any block of any quiescent queue of 1..3 blocks; loops unwound completely'),
     dict(id='global', entry='h_global', unwindset=UW_SEQ, cls='unbounded', note='add_to_global_retired_nodes (both overloads) / steal_global_retired_nodes, SEQ'),
     dict(id='global_int', entry='h_global_int', mode='INT', cls='unbounded', note='other threads replace the global list head at any time; CAS retry loop cut by invariant ADDG'),
-    dict(id='push_int', entry='h_push_int', mode='INT', cls='unbounded', note='push under the rely "any well-typed write to any cell at any time" (own stamp: only helping); both loops cut by invariants'),
-    dict(id='remove_int', entry='h_remove_int', mode='INT', cls='unbounded', defs={'XV_CANARY_CAS': 1},
+    dict(id='push_int', entry='h_push_int', mode='INT', defs={'XV_OBS': 1}, cls='unbounded', note='push under the rely "any well-typed write to any cell at any time" (own stamp: only helping); both loops cut by invariants'),
+    dict(id='remove_int', entry='h_remove_int', mode='INT', cls='unbounded', defs={'XV_CANARY_CAS': 1, 'XV_OBS': 1},
          note='remove with all helpers under the same rely; all six retry loops cut by invariants: every CAS attempt of every path is checked by the monitors'),
   ],
   obligations={
